@@ -1599,6 +1599,15 @@ class Model:
                     if isinstance(x, Opaque):
                         return None
                     return isinstance(x, py)
+                if p.rpartition('.')[0] in ('collections.abc', 'typing') and p.rpartition('.')[2] in _ABCS and not isinstance(x, Opaque | SVar | SObj | BoundModel):
+                    import collections.abc as _abc
+                    if isinstance(x, GenResult):
+                        return p.rpartition('.')[2] in ('Iterable', 'Iterator', 'Generator')
+                    if isinstance(x, _MappingProxy):
+                        return p.rpartition('.')[2] in ('Mapping', 'Iterable', 'Sized', 'Container', 'Collection')
+                    if x is None or type(x) in (str, int, float, bool, bytes, list, tuple, dict, set, frozenset, range) \
+                            or type(x).__name__ in ('dict_keys', 'dict_values', 'dict_items'):
+                        return isinstance(x, getattr(_abc, p.rpartition('.')[2]))
                 if p in ('scipp.Variable',):
                     if isinstance(x, SVar):
                         return x.kind != 'dataarray' and x.kind != 'raw'
@@ -1688,6 +1697,10 @@ _DEFAULT_UNIT = _DefaultUnit()
 class _Partial:
     def __init__(self, fn, args, kwargs):
         self.fn, self.args, self.kwargs = fn, args, kwargs
+
+
+_ABCS = ('Mapping', 'MutableMapping', 'Sequence', 'MutableSequence', 'Iterable', 'Iterator', 'Generator', 'Sized', 'Container', 'Collection',
+         'Hashable', 'Set', 'MutableSet', 'Callable')
 
 
 def _has_more(reader) -> bool:
